@@ -11,4 +11,6 @@ INVARIANT WarnClassesSound
 INVARIANT KeysDenoteCharges
 INVARIANT TypeOK
 INVARIANT Emit
+INVARIANT EmitTable
+INVARIANT RegistriesComplete
 CHECK_DEADLOCK FALSE
